@@ -11,12 +11,20 @@ For every modelled format and for ALL lists of lines (any content, any length):
   constructor's validators;
 * `<fmt>_load_one` — composed with the proved funnel (`Props/C07.lean`): `iodata.api.load_one` returns the object
   or raises `LoadError` (carrying the reader's line number), the file is closed, the file system is unchanged.
+VASP (`poscar_*`, `chgcar_*`, `locpot_*`): the read bound of the two grid formats is `N + 2` (their shape loop
+`for line in lit` swallows the end of the file and the value loop can hit it once more); their readers CAN return
+dictionaries the constructor rejects (a cell line or a Cartesian atom line with other than three numbers, no
+atoms): `*_shapes` states what is returned and that whatever passes `IOData(**result)` is consistent (`natom` rows
+of three coordinates, `atnums` of length `natom`, cell `(3, 3)`, grid data of three dimensions holding exactly
+their product of values), everything else is the constructor's `TypeError` ⇒ `LoadError`; `*_failures` lists the
+exception classes each reader can raise (each attained, see the examples).
 Generic: `ctor_shapes` (validators ⇒ consistent shapes, anything else is `TypeError` ⇒ `LoadError`),
 `reader_load_one` (any reader outcome through the funnel), `reader_load_many_partial` (any sequence of reader
 outcomes as the frames of a generator-based `load_many`: `StopIteration` ⇒ `RuntimeError` (PEP 479) ⇒ `LoadError`;
 partial: see there).
 -/
 import Iodata.Lemmas.C07Readers
+import Iodata.Lemmas.C07Vasp
 import Iodata.Props.C07
 import Iodata.Gen.Layouts
 
@@ -557,6 +565,201 @@ theorem gro_load_one (ls : List Str) (path : Nat) (fs : FS) :
       ∃ evs, st'.trace = .close :: (evs ++ [.openR]) ∧ LoadEvs evs :=
   reader_load_one _ _ _ _
 
+
+/-! ## VASP: POSCAR, CHGCAR, LOCPOT -/
+
+/-- what a result built from a `_load_vasp_header` return value looks like (`n` = `len(atnums)`, the cell is
+`(3, k)`), and that it is fully consistent with a `(3, 3)` cell whenever the constructor accepts it -/
+def VaspResult (o : RObj) (n : Nat) : Prop :=
+  o.natom = some n ∧ o.atnums = some [n] ∧ (∃ k, o.cellvecs = some [3, k]) ∧
+  ((n = 0 ∧ o.atcoords = some [0]) ∨ (0 < n ∧ ∃ m, o.atcoords = some [n, m])) ∧
+  (ctorE o = none → o.FullyConsistent n ∧ o.atcoords = some [n, 3] ∧ o.cellvecs = some [3, 3]) ∧
+  (ctorE o = none ∨ ctorE o = some .type)
+
+theorem vasp_result_of_header (T : Tables) (l l' : Lit) (h : Rd.Vasp.Hdr) (cube : Option (List Nat))
+    (hm : Rd.Vasp.loadHeader T l = (.ok h, l')) : VaspResult { h.toObj with cube := cube } h.natom := by
+  have hs := Rd.Vasp.header_shapes T l l' h hm
+  have hcons : ∀ o : RObj, ctorE o = none → o.natom = some h.natom → o.atffparams = [] → o.extraAtom = [] →
+      o.FullyConsistent h.natom := by
+    intro o hc hn h1 h2
+    refine ⟨ctorOk_consistent o _ hn ?_, by simp [h1], by simp [h2]⟩
+    unfold ctorE at hc
+    by_cases hk : ctorOk o = true
+    · exact hk
+    · simp [hk] at hc
+  have hty : ∀ o : RObj, ctorE o = none ∨ ctorE o = some .type := by
+    intro o; unfold ctorE; by_cases hk : ctorOk o = true <;> simp [hk]
+  rcases hs with ⟨hn, hc⟩ | ⟨hn, m, hc⟩
+  · refine ⟨by simp [Rd.Vasp.Hdr.toObj, RObj.natom, hc, lenOf, hn], by simp [Rd.Vasp.Hdr.toObj],
+      ⟨h.cellK, by simp [Rd.Vasp.Hdr.toObj]⟩, Or.inl ⟨hn, by simp [Rd.Vasp.Hdr.toObj, hc]⟩, ?_, hty _⟩
+    intro hct
+    exfalso
+    simp [ctorE, ctorOk, Rd.Vasp.Hdr.toObj, RObj.natom, hc, lenOf, optShape, shapeMatch] at hct
+  · have hnat : ({ h.toObj with cube := cube } : RObj).natom = some h.natom := by
+      simp [Rd.Vasp.Hdr.toObj, RObj.natom, hc, lenOf]
+    refine ⟨hnat, by simp [Rd.Vasp.Hdr.toObj], ⟨h.cellK, by simp [Rd.Vasp.Hdr.toObj]⟩,
+      Or.inr ⟨hn, m, by simp [Rd.Vasp.Hdr.toObj, hc]⟩, ?_, hty _⟩
+    intro hct
+    refine ⟨hcons _ hct hnat (by simp [Rd.Vasp.Hdr.toObj]) (by simp [Rd.Vasp.Hdr.toObj]), ?_, ?_⟩
+    · have : m = 3 := by
+        simp [ctorE, ctorOk, Rd.Vasp.Hdr.toObj, RObj.natom, hc, lenOf, optShape, shapeMatch] at hct
+        omega
+      simp [Rd.Vasp.Hdr.toObj, hc, this]
+    · have : h.cellK = 3 := by
+        simp [ctorE, ctorOk, Rd.Vasp.Hdr.toObj, RObj.natom, hc, lenOf, optShape, shapeMatch] at hct
+        omega
+      simp [Rd.Vasp.Hdr.toObj, this]
+
+theorem poscar_good (T : Tables) : Good (Rd.Vasp.loadPoscar T) := by
+  unfold Rd.Vasp.loadPoscar
+  exact good_bind (Rd.Vasp.header_good T) fun _ => good_pure _
+
+/-- **poscar_terminates**: on any list of lines the POSCAR reader (coordinate loop bounded by the sum of the
+counts it read) returns an object or raises a class of the enumeration, after at most `N + 1` reads. -/
+theorem poscar_terminates (T : Tables) (ls : List Str) :
+    ((∃ o, (Rd.Vasp.readPoscar T ls).res = .ok o) ∨ (∃ c, (Rd.Vasp.readPoscar T ls).res = .error c)) ∧
+    (Rd.Vasp.readPoscar T ls).lineno ≤ ls.length + 1 := by
+  refine ⟨?_, run_lineno_le (poscar_good T).fin ls⟩
+  cases (Rd.Vasp.readPoscar T ls).res with
+  | ok o => exact Or.inl ⟨o, rfl⟩
+  | error c => exact Or.inr ⟨c, rfl⟩
+
+/-- **poscar_shapes**: a returned POSCAR result has `atnums (n,)`, a cell `(3, k)` and `n` coordinate rows of one
+common length (`atcoords (n, m)`, or `(0,)` without atoms); if `IOData(**result)` accepts it, it is fully
+consistent: `atcoords (n, 3)`, cell `(3, 3)`; otherwise the constructor raises `TypeError`. -/
+theorem poscar_shapes (T : Tables) (ls : List Str) (o : RObj) (h : (Rd.Vasp.readPoscar T ls).res = .ok o) :
+    ∃ n, VaspResult o n := by
+  unfold Rd.Vasp.readPoscar run at h
+  rcases hm : Rd.Vasp.loadPoscar T ⟨ls, 0⟩ with ⟨r, l'⟩
+  rw [hm] at h
+  simp only at h
+  subst h
+  unfold Rd.Vasp.loadPoscar at hm
+  obtain ⟨hd, l1, hh, hm⟩ := bind_ok hm
+  obtain ⟨ho, -⟩ := pure_ok hm
+  subst ho
+  exact ⟨hd.natom, vasp_result_of_header T _ _ hd none hh⟩
+
+/-- **poscar_load_one**: `load_one` on any POSCAR file content returns an object (consistent by `poscar_shapes`)
+or raises `LoadError`; the file is closed. -/
+theorem poscar_load_one (T : Tables) (ls : List Str) (path : Nat) (fs : FS) :
+    ∃ st', runLoadOne loadOne (behOf (Rd.Vasp.readPoscar T ls) ls.length) path fs
+        = (apiOutcome (Rd.Vasp.readPoscar T ls), st') ∧
+      IsObjOrLoadError (apiOutcome (Rd.Vasp.readPoscar T ls)) ∧ st'.fs = fs ∧
+      ∃ evs, st'.trace = .close :: (evs ++ [.openR]) ∧ LoadEvs evs :=
+  reader_load_one _ _ _ _
+
+/-- the read bound of `_load_vasp_grid`: `N + 2` (`for line in lit` swallows the end of the file, the value loop
+may hit it once more) -/
+theorem vasp_grid_bound (T : Tables) (ls : List Str) : (run (Rd.Vasp.loadGrid T) ls).lineno ≤ ls.length + 2 := by
+  unfold run Rd.Vasp.loadGrid RM.bind
+  have hg := Rd.Vasp.header_good T ls.length ⟨ls, 0⟩ (by simp [Clean])
+  rcases hh : Rd.Vasp.loadHeader T ⟨ls, 0⟩ with ⟨r, l1⟩
+  rw [hh] at hg
+  cases r with
+  | error e => exact Nat.le_succ_of_le (Rd.Vasp.wf_lineno_le hg)
+  | ok hd =>
+    dsimp only
+    have hb := Rd.Vasp.gridPart_bound hd.cellK ls.length l1 hg.1
+    rcases hp : Rd.Vasp.gridPart hd.cellK l1 with ⟨r2, l2⟩
+    rw [hp] at hb
+    cases r2 <;> exact hb
+
+/-- a returned `_load_vasp_grid` result: the header part as for POSCAR, a cell of shape `(3, 3)` already before
+the constructor (the `Cube` validator), grid data of three dimensions `a × b × c`, and the value loop stored
+exactly `a * b * c` numbers -/
+theorem vasp_grid_shapes (T : Tables) (ls : List Str) (o : RObj) (h : (run (Rd.Vasp.loadGrid T) ls).res = .ok o) :
+    ∃ n, VaspResult o n ∧ o.cellvecs = some [3, 3] ∧
+      ∃ a b c, o.cube = some [a, b, c] ∧
+        ∃ k l1 l2, Rd.Vasp.gridPart k l1 = (.ok ([a, b, c], a * b * c), l2) := by
+  unfold run at h
+  rcases hm : Rd.Vasp.loadGrid T ⟨ls, 0⟩ with ⟨r, l'⟩
+  rw [hm] at h
+  simp only at h
+  subst h
+  unfold Rd.Vasp.loadGrid at hm
+  obtain ⟨hd, l1, hh, hm⟩ := bind_ok hm
+  obtain ⟨g, l2, hgp, hm⟩ := bind_ok hm
+  obtain ⟨ho, -⟩ := pure_ok hm
+  subst ho
+  obtain ⟨hk, a, b, c, hg1, hg2⟩ := Rd.Vasp.gridPart_ok _ _ _ _ hgp
+  refine ⟨hd.natom, vasp_result_of_header T _ _ hd _ hh, by simp [Rd.Vasp.Hdr.toObj, hk], a, b, c,
+    by simp [hg1], hd.cellK, l1, l2, ?_⟩
+  rw [hgp, ← hg1, ← hg2]
+
+/-- **chgcar_terminates**: on any list of lines the CHGCAR reader (coordinate loop bounded by the counts, shape
+loop by the remaining lines, value loop by the product of the three dimensions, one word per iteration) returns
+an object or raises a class of the enumeration, after at most `N + 2` reads. -/
+theorem chgcar_terminates (T : Tables) (ls : List Str) :
+    ((∃ o, (Rd.Vasp.readChgcar T ls).res = .ok o) ∨ (∃ c, (Rd.Vasp.readChgcar T ls).res = .error c)) ∧
+    (Rd.Vasp.readChgcar T ls).lineno ≤ ls.length + 2 := by
+  refine ⟨?_, vasp_grid_bound T ls⟩
+  cases (Rd.Vasp.readChgcar T ls).res with
+  | ok o => exact Or.inl ⟨o, rfl⟩
+  | error c => exact Or.inr ⟨c, rfl⟩
+
+/-- **chgcar_shapes**: a returned CHGCAR result has `atnums (n,)`, `n` coordinate rows, a `(3, 3)` cell and grid
+data `a × b × c` filled with exactly `a * b * c` values; if the constructor accepts it, `atcoords` is `(n, 3)`. -/
+theorem chgcar_shapes (T : Tables) (ls : List Str) (o : RObj) (h : (Rd.Vasp.readChgcar T ls).res = .ok o) :
+    ∃ n, VaspResult o n ∧ o.cellvecs = some [3, 3] ∧
+      ∃ a b c, o.cube = some [a, b, c] ∧
+        ∃ k l1 l2, Rd.Vasp.gridPart k l1 = (.ok ([a, b, c], a * b * c), l2) :=
+  vasp_grid_shapes T ls o h
+
+/-- **chgcar_load_one**: `load_one` on any CHGCAR file content returns an object or raises `LoadError`; the file
+is closed. -/
+theorem chgcar_load_one (T : Tables) (ls : List Str) (path : Nat) (fs : FS) :
+    ∃ st', runLoadOne loadOne (behOf (Rd.Vasp.readChgcar T ls) ls.length) path fs
+        = (apiOutcome (Rd.Vasp.readChgcar T ls), st') ∧
+      IsObjOrLoadError (apiOutcome (Rd.Vasp.readChgcar T ls)) ∧ st'.fs = fs ∧
+      ∃ evs, st'.trace = .close :: (evs ++ [.openR]) ∧ LoadEvs evs :=
+  reader_load_one _ _ _ _
+
+/-- **locpot_terminates**: as `chgcar_terminates` (the unit conversion after `_load_vasp_grid` cannot raise). -/
+theorem locpot_terminates (T : Tables) (ls : List Str) :
+    ((∃ o, (Rd.Vasp.readLocpot T ls).res = .ok o) ∨ (∃ c, (Rd.Vasp.readLocpot T ls).res = .error c)) ∧
+    (Rd.Vasp.readLocpot T ls).lineno ≤ ls.length + 2 := by
+  refine ⟨?_, vasp_grid_bound T ls⟩
+  cases (Rd.Vasp.readLocpot T ls).res with
+  | ok o => exact Or.inl ⟨o, rfl⟩
+  | error c => exact Or.inr ⟨c, rfl⟩
+
+/-- **locpot_shapes**: as `chgcar_shapes`. -/
+theorem locpot_shapes (T : Tables) (ls : List Str) (o : RObj) (h : (Rd.Vasp.readLocpot T ls).res = .ok o) :
+    ∃ n, VaspResult o n ∧ o.cellvecs = some [3, 3] ∧
+      ∃ a b c, o.cube = some [a, b, c] ∧
+        ∃ k l1 l2, Rd.Vasp.gridPart k l1 = (.ok ([a, b, c], a * b * c), l2) :=
+  vasp_grid_shapes T ls o h
+
+/-- **locpot_load_one**: `load_one` on any LOCPOT file content returns an object or raises `LoadError`; the file
+is closed. -/
+theorem locpot_load_one (T : Tables) (ls : List Str) (path : Nat) (fs : FS) :
+    ∃ st', runLoadOne loadOne (behOf (Rd.Vasp.readLocpot T ls) ls.length) path fs
+        = (apiOutcome (Rd.Vasp.readLocpot T ls), st') ∧
+      IsObjOrLoadError (apiOutcome (Rd.Vasp.readLocpot T ls)) ∧ st'.fs = fs ∧
+      ∃ evs, st'.trace = .close :: (evs ++ [.openR]) ∧ LoadEvs evs :=
+  reader_load_one _ _ _ _
+
+/-- **poscar_failures**: whenever the POSCAR reader raises, the class is one of `StopIteration` (file too short),
+`ValueError` (`float()`, `int()`, ragged rows in `np.array`, `np.dot` shapes), `KeyError` (unknown element symbol),
+`IndexError` (`line[0]` of an empty string), `OverflowError` / `MemoryError` (`[n] * count`) — all of them
+`Exception`s, which the funnel turns into `LoadError` (`poscar_load_one`). -/
+theorem poscar_failures (T : Tables) (ls : List Str) (c : Cls) (h : (Rd.Vasp.readPoscar T ls).res = .error c) :
+    c ∈ [Cls.stopIter, .value, .key, .index, .overflow, .memory] :=
+  run_error_mem (Rd.Vasp.poscar_raises T) ls c h
+
+/-- **chgcar_failures**: whenever the CHGCAR reader raises, the class is one of those of `poscar_failures`, or
+`TypeError` (`np.zeros` with `float64` dimensions, the `Cube` validator on a cell that is not `(3, 3)`), or `NameError`
+(`UnboundLocalError`: no line after the header, the shape loop never ran). -/
+theorem chgcar_failures (T : Tables) (ls : List Str) (c : Cls) (h : (Rd.Vasp.readChgcar T ls).res = .error c) :
+    c ∈ [Cls.stopIter, .value, .key, .index, .overflow, .memory, .type, .name] :=
+  run_error_mem (Rd.Vasp.grid_raises T) ls c h
+
+/-- **locpot_failures**: as `chgcar_failures`. -/
+theorem locpot_failures (T : Tables) (ls : List Str) (c : Cls) (h : (Rd.Vasp.readLocpot T ls).res = .error c) :
+    c ∈ [Cls.stopIter, .value, .key, .index, .overflow, .memory, .type, .name] :=
+  run_error_mem (Rd.Vasp.grid_raises T) ls c h
+
 /-! ### non-vacuity (the generated tables, evaluated by the kernel) -/
 
 example : (Rd.Xyz.read Gen.Layouts.tables
@@ -568,6 +771,51 @@ example : (Rd.Xyz.read Gen.Layouts.tables [['2','\n'], ['t','\n'], ['Q',' ','0',
     = ⟨.error .key, 3⟩ := by decide +kernel
 example : (Rd.Xyz.read Gen.Layouts.tables [['-','1','\n'], ['t','\n']]) = ⟨.error .value, 2⟩ := by decide +kernel
 example : apiOutcome (Rd.Xyz.read Gen.Layouts.tables [['2','\n'], ['t','\n']]) = .raised .load (some 3) := by
+  decide +kernel
+
+def vaspHeaderEx : List Str :=
+  [['t','\n'], ['1','.','0','\n'], ['4',' ','0',' ','0','\n'], ['0',' ','4',' ','0','\n'], ['0',' ','0',' ','4','\n'],
+   ['O',' ','H','\n'], ['1',' ','2','\n'], ['S','e','l','\n'], ['D','i','r','e','c','t','\n'],
+   ['0',' ','0',' ','0','\n'], ['.','5',' ','0',' ','0',' ','T','\n'], ['0',' ','.','5',' ','0','\n']]
+
+example : Rd.Vasp.readPoscar Gen.Layouts.tables vaspHeaderEx
+    = ⟨.ok { atnums := some [3], atcoords := some [3, 3], cellvecs := some [3, 3], hasTitle := true }, 12⟩ := by
+  decide +kernel
+example : Rd.Vasp.zsum Gen.Layouts.tables vaspHeaderEx = some 10 := by decide +kernel
+example : apiOutcome (Rd.Vasp.readPoscar Gen.Layouts.tables vaspHeaderEx) = .ret := by decide +kernel
+example : Rd.Vasp.readChgcar Gen.Layouts.tables
+      (vaspHeaderEx ++ [['\n'], ['2',' ','1',' ','2','\n'], ['1',' ','2',' ','3','\n'], ['4','e','0',' ','x','\n']])
+    = ⟨.ok { atnums := some [3], atcoords := some [3, 3], cellvecs := some [3, 3], cube := some [2, 1, 2],
+             hasTitle := true }, 16⟩ := by decide +kernel
+/-- a truncated grid: `StopIteration` at line `N + 1` -/
+example : Rd.Vasp.readLocpot Gen.Layouts.tables (vaspHeaderEx ++ [['\n'], ['2',' ','1',' ','2','\n'], ['1','\n']])
+    = ⟨.error .stopIter, 16⟩ := by decide +kernel
+/-- no line after the header: the shape loop never runs, `shape` is unbound -/
+example : Rd.Vasp.readChgcar Gen.Layouts.tables vaspHeaderEx = ⟨.error .name, 13⟩ := by decide +kernel
+/-- the bound `N + 2` is attained: the last line has four integers, the shape loop ends at the end of the file and
+the value loop reads once more -/
+example : Rd.Vasp.readChgcar Gen.Layouts.tables (vaspHeaderEx ++ [['1',' ','1',' ','1',' ','1','\n']])
+    = ⟨.error .stopIter, 15⟩ := by decide +kernel
+/-- a Cartesian atom line with two numbers: the reader returns, the constructor refuses (`LoadError`) -/
+example : apiOutcome (Rd.Vasp.readPoscar Gen.Layouts.tables
+      [['t','\n'], ['1','\n'], ['1',' ','0',' ','0','\n'], ['0',' ','1',' ','0','\n'], ['0',' ','0',' ','1','\n'],
+       ['H','\n'], ['1','\n'], ['C','\n'], ['0',' ','0','\n']]) = .raised .load (some 9) := by decide +kernel
+
+/-- each class of `poscar_failures` is attained: unknown symbol, empty mode line, huge counts -/
+example : Rd.Vasp.readPoscar Gen.Layouts.tables (vaspHeaderEx.take 5 ++ [['o','\n']]) = ⟨.error .key, 6⟩ := by
+  decide +kernel
+example : Rd.Vasp.readPoscar Gen.Layouts.tables (vaspHeaderEx.take 7 ++ [[]]) = ⟨.error .index, 8⟩ := by
+  decide +kernel
+example : Rd.Vasp.readPoscar Gen.Layouts.tables
+    (vaspHeaderEx.take 6 ++ [['9','9','9','9','9','9','9','9','9','9','9','9','9','9','9','9','9','9','9','9','\n']])
+    = ⟨.error .overflow, 7⟩ := by decide +kernel
+example : Rd.Vasp.readPoscar Gen.Layouts.tables
+    (vaspHeaderEx.take 6 ++ [['3','0','0','0','0','0','0','0','0','0','\n']]) = ⟨.error .memory, 7⟩ := by
+  decide +kernel
+/-- a cell line with two numbers: `TypeError` from the `Cube` validator in the grid formats -/
+example : Rd.Vasp.readChgcar Gen.Layouts.tables
+    ([['t','\n'], ['1','\n'], ['1',' ','0','\n'], ['0',' ','1','\n'], ['0',' ','0','\n'], ['H','\n'], ['1','\n'],
+      ['C','\n'], ['0',' ','0',' ','0','\n'], ['1',' ','1',' ','1','\n'], ['5','\n']]) = ⟨.error .type, 11⟩ := by
   decide +kernel
 
 end Iodata.Props.C07Readers
